@@ -18,6 +18,20 @@ U == CASE UName = "t1small" -> L1s \cup Pairs(L1s)
                                \cup Wrap(BigUnions(ClassPool, 6, 6))
        [] UName = "wrap3"   -> Wrap(Wrap(Pairs(TAtomsSmall \cup {TList(TAny), TList(TCls("int")), TDict(TAny, TAny),
                                                                   TDict(TCls("str"), TCls("int")), TTuple(<<>>)})))
+       \* C11: classes spread over modules whose names are dotted / textual suffixes of one another
+       [] UName = "ctx1"    -> CtxAtoms \cup Cont(CtxAtoms) \cup Pairs(CtxAtoms)
+                               \cup {TTuple(<<x, y>>) : x \in CtxAtoms, y \in CtxAtoms}
+                               \cup {TDict(x, y) : x \in CtxUser, y \in CtxUser}
+                               \cup {TList(t) : t \in Pairs(CtxUser)} \cup {TTupleVar(x) : x \in CtxUser}
+                               \cup {TDDict(TCls("str"), TList(x)) : x \in CtxUser}
+       [] UName = "ctxtd"   -> LET TD0 == {TTD({TReq("a", x)}) : x \in CtxUser \cup {TCls("int")}}
+                                          \cup {TTD({TReq("a", TCls("int")), TOpt("b", x)}) : x \in CtxUser}
+                                          \cup {TTD({TOpt("b", TCls("int"))}), TTD({TReq("a", TTD({TReq("x", TCls("int"))}))}),
+                                                TTD({TReq("a", TList(TTD({TReq("x", TCls("str"))})))})}
+                               IN  TD0 \cup Wrap(TD0) \cup {TDict(TCls("str"), t) : t \in TD0} \cup {TDDict(TCls("str"), t) : t \in TD0}
+                                   \cup {TTuple(<<t, u>>) : t \in TD0, u \in {TTD({TReq("a", TCls("int"))}), TTD({TReq("c", TCls("str"))})}}
+                                   \cup {TTypeOf(TCls("zutil.A")), TIterator(TAny), TCallable}
+                                   \cup {MkUnion({t, TNone}) : t \in TD0} \cup {TList(MkUnion({t, TCls("int")})) : t \in TD0}
        [] UName = "tds"     -> TDPool \cup Pairs(TDPool \cup TAtomsSmall) \cup Wrap(TDPool) \cup Wrap(Pairs(TDPool))
 
 ASSUME JsonSerialize(IOEnv.OUT_FILE, SetToSeq(U))
